@@ -739,6 +739,22 @@ def run(ck):
             continue
         ck.violation("C09/harness-crash", "%s: rc=%s answered %s of %s lines: %s" % (kind, v[0], v[1], v[2], v[3]),
                      {"detail": str(v[:4]), "broken": "harness/model driver run"}, no_input=True)
+    # virtual-memory failure histories: the implementation runs first; its `oom` answers are the oracle bits of the model
+    # (JitVmModel.alloc_vm: `AF size` = alloc whose VirtMem request fails), then both are compared like any other history
+    vm_hists = [h for h in unmodelled if getattr(h, "monitor_only", False) and not (h.opt & LARGE)]
+    unmodelled = [h for h in unmodelled if h not in vm_hists]
+    stats["vm_failures_modelled"] = 0
+    for h in vm_hists:
+        ls = h.lines()
+        rc, outi, erri = run_exe(impl, [], ls, timeout=300)
+        a, mon = split_impl(outi)
+        mls = [("AF" + l[1:]) if (l.startswith("A ") and i < len(a) and a[i] == "A oom") else l for i, l in enumerate(ls)]
+        stats["vm_failures_modelled"] += sum(1 for l in mls if l.startswith("AF"))
+        rcm, outm, errm = run_exe(model, [str(vbits)], mls, timeout=300)
+        if rc != 0 or len(a) != len(ls):
+            ck.violation("C09/harness-crash", "harness died in a VM-failure history rc=%s" % rc, {"history": ls, "broken": "harness run"}, no_input=True)
+            continue
+        compared += judge_history(ck, h, -1, a, [(k, t) for (k, t) in mon], outm, len(ls), present, stats)
     # monitor-only histories
     mon_only_ops = 0
     if unmodelled:
@@ -789,7 +805,7 @@ def run(ck):
          "samples": samples, "ops_by_kind": stats["ops"], "histories": len(hists),
          "histories_by_source": {"corpus": n_corpus, "directed": n_directed, "bounded_exhaustive": n_exh, "random": n_random},
          "traces_validated_against_impl": len(modelled), "ops_compared_with_model": compared,
-         "ops_monitor_only_large_pages_and_vm_failure": mon_only_ops, "vm_failures_reported_as_errors": stats.get("vm_failures_reported_as_errors", 0), "histories_cut_at_known_defect": cut_histories,
+         "ops_monitor_only_large_pages_and_vm_failure": mon_only_ops, "vm_failures_compared_with_model": stats.get("vm_failures_modelled", 0), "histories_cut_at_known_defect": cut_histories,
          "queries_outside_block_not_compared": stats["q_oob"],
          "traces_judged_by_proven_checker": stats.get("judge_traces", 0), "events_judged_by_proven_checker": stats.get("judge_events", 0),
          "model_vs_impl_disagreements": stats["disagreements"], "model_variant_bits": vbits,
